@@ -392,7 +392,8 @@ def decode_traces(rep, prop, tier, seed):
     import thrift_rt as rt
     cases, res, units, cst = results(tier, seed)
     touches = argtype_touches(corpus_for(tier, seed))
-    want = {"C02": ("base", ("", "k")), "C08": ("evo", ("",)), "C13": ("evo", ("k",)), "C11": ("evo", ("", "k"))}[prop]
+    want = {"C02": ("base", ("", "k")), "C08": ("evo", ("",)), "C13": ("evo", ("k",)), "C11": ("evo", ("", "k")),
+            "C12": ("base", ("",))}[prop]
     pool = [(ci, cs) for ci, cs in enumerate(cases) if cs["kind"] == want[0] and not (cs["kind"] == "evo" and cs["how"] == "retype" and cs["isunion"])]
     rnd = random.Random(seed + 78)
     rnd.shuffle(pool)
@@ -407,7 +408,7 @@ def decode_traces(rep, prop, tier, seed):
             path = gen.find_type(units, cs["sid"] + suffix, cs["ty"])
             if path is None:
                 continue
-            reqs.append({"id": len(reqs), "ty": path, "op": "trace_decode",
+            reqs.append({"id": len(reqs), "ty": path, "op": "trace_decode", "with_async": not suffix,
                          "inputs": {"bin": cs["bin"] + TRAILER, "binle": cs["binle"] + TRAILER, "compact": cs["cs"] + TRAILER,
                                     "unsafe": cs["bin"] + TRAILER}})
             meta.append({"schema": cs["sid"] + suffix, "type": cs["ty"], "kind": cs["kind"], "how": cs["how"], "unit": "keep" if suffix else "plain",
@@ -429,6 +430,9 @@ def decode_traces(rep, prop, tier, seed):
                     unmodelled[u] = unmodelled.get(u, 0) + 1
                 runs += 1
                 g = {k: v for k, v in m.items() if k != "inputs"}
+                is_async = proto.startswith("a")
+                proto = proto[1:] if is_async else proto
+                g = dict(g, **{"async": is_async})
                 f.write(json.dumps({"op": "reset", "run": runs, "dir": "r", "p": proto, "buf": "bytesmut", "err": "", "input": m["inputs"][proto],
                                     "gen": g, "decode_err": t["err"]}) + "\n")
                 for ev in t["events"]:
@@ -440,6 +444,8 @@ def decode_traces(rep, prop, tier, seed):
     for r in rejections:
         g = r["run_head"].get("gen", {})
         if prop == "C11" and r["run_head"].get("p") != "unsafe":
+            continue
+        if prop == "C12" and not g.get("async"):
             continue
         rep.violation({"check": "gen-decode-trace-rejected", "proto": r["run_head"].get("p"), "op": r["event"].get("op", ""), "unit": g.get("unit"), "how": g.get("how")},
                       {"generated_type": g, "rejected_at": r["line_in_run"], "event": r["event"], "run": r["run_lines"][:80]})
